@@ -6,8 +6,8 @@ CONSTANTS
   MaxTerm = 3
   MaxLog = 2
   MaxClient = 0
-  MaxCrash = 0
-  MaxMsgs = 3
+  MaxCrash = 1
+  MaxMsgs = 2
   MaxSnap = 0
   MaxMember = 0
   MaxTimeout = 2
@@ -15,7 +15,7 @@ CONSTANTS
   MaxMisc = 0
   MaxAppend = 2
   Trailing = 1
-  Features = {"prevote"}
+  Features = {"crash", "prevote"}
 VIEW view
 INVARIANTS ElectionSafety OneVotePerTerm TermDurable CommittedFunctional CommittedStable LeaderComplete LogMatching TermsMonotoneM CommitBounded CommitJustified FsmOnlyCommitted FsmInOrder FsmAgree OneUncommittedCfg NoHoleM ReportedCovered
 CHECK_DEADLOCK FALSE
